@@ -81,7 +81,8 @@ add("C26", "TLC exhaustive on SampleListFS.tla and StreamStat.tla + replay of TL
     "replayed with the real SampleList / ResidualSampleList (fields and multi-fields) in a scratch directory under a process-per-rank communicator; every "
     "load after a successful save must return exactly the saved samples in order on every rank. StreamStat.tla gives mean and unbiased variance of all "
     "integer streams up to length 4/6 as exact rationals (and checks the Welford recurrence against the closed form); StatCalculator, sample_stat, "
-    "average and the HDF5 export are compared with them; ShiftInvariant (a common offset leaves the variance alone) is replayed with an offset of 1e8. "
+    "average, the probing helpers (probe_with_posterior_samples, probe_diagonal, approximation2endo: an operator that hands out the stream) "
+    "and the HDF5 export are compared with them; ShiftInvariant (a common offset leaves the variance alone) is replayed with an offset of 1e8. "
     "The long-list configuration (lists of 2, 10, 11, 12 samples, two-digit indices) is enumerated for all overwrite histories and replayed.",
     TRUST + "the simulated communicator (no libmpi in the sandbox).")
 
@@ -102,7 +103,8 @@ add("C15", "TLC exhaustive on CGPair.tla (eager and compiled control skeletons o
     "e^6, indefinite, negative definite, singular; convergence exactly at the iteration limit; with/without x0); their per-iteration reports and the "
     "curvature of every wrapped matrix application are validated against the skeletons by CGTrace.tla and the final event carries ground truth from "
     "the returned solution (true residual, energy vs start, steepest-descent step, agreement of the variants).",
-    TRUST + "predicates within 64 ulp of their threshold are left to TLC; tolerances rtol 1e-9 (agreement), 1e-6 (residual).")
+    TRUST + "predicates within 64 ulp of their threshold are left to TLC; tolerances rtol 1e-9 (agreement), 1e-6 (residual). The documented entry points "
+    "cg / static_cg (not only the transcribed _cg / _static_cg) are driven as well: accuracy, info = 0, agreement, use of the starting point.")
 
 add("C17", "TLC exhaustive on NewtonPair.tla (eager and compiled Newton-CG bookkeeping on the same environment) + trace validation of real runs (NewtonTrace.tla) with harness-computed ground truth; trust-region energy law on the same objectives",
     "The line search over nine trial step lengths (reset after the 6th failure, abort after the 9th), the convergence tests and the iteration limit "
@@ -112,7 +114,8 @@ add("C17", "TLC exhaustive on NewtonPair.tla (eager and compiled Newton-CG bookk
     "quartic, Rosenbrock-like and quadratic objectives on pytree positions from starts with positive, zero and negative curvature; every objective "
     "evaluation is recorded, segmented into iterations and validated by NewtonTrace.tla together with ground truth (final energy vs start, g.Hg at each "
     "iteration start and the direction of the first trial, progress, agreement of the variants).",
-    TRUST + "agreement tolerance rtol 1e-7.")
+    TRUST + "agreement tolerance rtol 1e-7. The documented entry points (newton_cg, static_newton_cg, trust_ncg, minimize with both methods and with args) are "
+    "driven on convex quadratics and quartics: never above the start, the minimum of a strictly convex quadratic is approached.")
 
 add("C14", "TLC exhaustive on ControllerCG.tla + replay of controller behaviours into the five real controllers + trace validation of real ConjugateGradient runs (ControllerCGTrace.tla) with ground truth; InversionEnabler solves",
     "The counter logic of the iteration controllers and the control skeleton of the classic CG (controller asked first, vanishing / NaN gamma, "
@@ -174,7 +177,9 @@ add("C11", "TLC on LikelihoodCl.tla (value terms, exact gradient and Fisher metr
     "positivity). Every instance is evaluated with nifty.cl on a plain field and on a Linearization with metric: plain value = linearized value, value "
     "differences between points = differences of the spec value, gradient and dense metric exactly (1e-10), Jt^H Jt = metric for the coordinate "
     "transformations, get_metric_at = metric. The variable-covariance Gaussian is checked at rational points (value, gradient, both metrics) and its "
-    "transformation in expectation over data by exact moment substitution.",
+    "transformation in expectation over data by exact moment substitution. AveragedEnergy over mirrored residual samples (value, gradient, metric are the "
+    "averages; composition `avg` of the specification) and the Gaussian energy over a MultiDomain with a block-diagonal inverse covariance "
+    "(BlockDiagonalOperator.get_sqrt in the transformation) are instances as well.",
     TRUST + "float comparison 1e-10 relative; values are compared up to parameter-independent constants.")
 
 add("C31", "TLC on MultiGrid.tla (index maps of periodic, open and HEALPix grids; laws checked on every grid) + replay of every index of every level into the real grid classes + law checks on the real outputs of a wider family",
@@ -261,8 +266,12 @@ add("C03", "TLC on Calculus.tla (operator expressions as SSA programs with symbo
     "the Jacobian the symbolic derivative (chain / product / power rule, derivative table written from mathematics). TLC checks on every state that "
     "the symbolic derivative of rational expressions equals forward-mode differentiation with exact dual numbers. All 2-slot programs with every "
     "function, all 3-slot programs with four functions and simulated deeper ones are built in nifty.cl: value on a field = value on a "
-    "linearization = Eval(val), dense Jacobian = Eval(D val), adjoint = transpose, metric of an energy = J^T J.",
-    TRUST + "real fields, two pixels per key; non-smooth / undefined points are skipped; JAX operator wrappers and complex inputs are not covered.")
+    "linearization = Eval(val), dense Jacobian = Eval(D val), adjoint = transpose, metric of an energy = J^T J. The python arithmetic of operators "
+    "(x / y, c / x, x / c, c - x, c + x, x ** n, x ** y, base ** x, abs(x), .real, .conjugate(), op[key]) and ptw_pre (substitution of the function "
+    "into every atom) are actions of the specification as well; programs of up to three slots are replayed a second time through the other "
+    "implementations of the same mathematics (JaxOperator for point-wise functions, MultiLinearEinsum for products and scalar products, "
+    "JaxLikelihoodEnergyOperator for the unit Gaussian energy).",
+    TRUST + "real fields, two pixels per key; non-smooth / undefined points (also 0/0 as the rounding residue of an exact zero) are skipped; complex inputs are not covered.")
 add("C04", "TLC on Calculus.tla (programs over both keys) + replay: simplify_for_constant_input and EnergyAdapter(constants=...) against the value and the free-key columns of the symbolic Jacobian",
     "For every program over both keys and each key held constant the specialised operator must live on the other key, keep the target, reproduce the "
     "value and exactly the Jacobian columns (and for energies the metric block) of the free key; EnergyAdapter with constants must report value and "
@@ -341,7 +350,9 @@ add("C02", "TLC on IndexOps.tla (exact sparse matrices of the index-map operator
     "operators are compared. 55 constructions covering every exported linear operator class are checked with seeded real and complex vectors for "
     "<y, A x> = <A^H y, x> (real part for the real-linear ones), linearity with complex factors, advertised (adjoint) inverses, the declared "
     "target and that the input field is not modified.",
-    TRUST + "exact matrices of the harmonic / padding / regridding / interpolation / mask / line-of-sight / non-uniform Fourier operators are in C09 and C35, the operator algebra in C01.")
+    TRUST + "exact matrices of the harmonic / padding / regridding / interpolation / mask / line-of-sight / non-uniform Fourier operators are in C09 and C35, the operator algebra in C01. "
+    "FFTShiftOperator (all axis selections, shapes up to 5 x 4; ShiftTwice law) and Multifield2Vector have exact matrices here; the catalogue has 63 constructions "
+    "(FuncConvolutionOperator on regular, Gauss-Legendre and HEALPix grids and on one of several sub-domains, JaxLinearOperator, Gridder, ...).")
 
 
 def main():
